@@ -41,6 +41,9 @@ SPEC = {
     'Decimal': [[('DECIMAL',)]], 'BigDecimal': [[('DECIMAL',)]],
     'Duration': [[('FIXED', 12)]],
 }
+# on the ignoring path a decimal may be taken as the bytes it is made of, without conversion: a decimal over bytes and a
+# big-decimal are length-delimited, a decimal over a fixed is the fixed's size
+IGNORED_RAW = {'Decimal': [[('LENDELIM',)], [('SIZED',)]], 'BigDecimal': [[('LENDELIM',)]]}
 # which visitor method may receive the value of a kind when the cell reads it itself
 VISITS = {
     'Null': {'unit', 'none'},
@@ -150,6 +153,8 @@ def run(ctx):
                     continue
                 nwire += 1
                 alts = SPEC[kind]
+                if ignored and kind in IGNORED_RAW:
+                    alts = alts + IGNORED_RAW[kind]
                 if kind in ('Int', 'Date', 'TimeMillis', 'Long', 'TimeMicros', 'TimestampMillis', 'TimestampMicros', 'Enum') and not ignored:
                     alts = [a for a in alts if not (a and a[0][0] == 'VARINT' and a[0][1].startswith('u'))]
                 ok = sorted(wire, key=str) in [sorted(a, key=str) for a in alts]
